@@ -30,6 +30,7 @@ class Ctx:
             return
         self.pc.append(cond)
         self.solver.add(cond)
+        self.last_model = None
 
     def check(self, *extra):
         t = time.time()
@@ -38,6 +39,10 @@ class Ctx:
         self.stats['solver_s'] = self.stats.get('solver_s', 0.0) + (time.time() - t)
         if r == z3.unknown:
             raise Unsupported("solver unknown: " + self.solver.reason_unknown())
+        if r == z3.sat and extra:
+            # remember the witness of the most recent satisfiable deciding query: Ctx.model() must return values that
+            # exhibit the violation that was just found, not an arbitrary model of the path condition
+            self.last_model = self.solver.model()
         return r == z3.sat
 
     def assume(self, cond):
@@ -126,6 +131,8 @@ class Ctx:
         return '%s!%d' % (base, self.fresh)
 
     def model(self):
+        if getattr(self, 'last_model', None) is not None:
+            return self.last_model
         if not self.check():
             return None
         return self.solver.model()
